@@ -14,6 +14,13 @@ Operational mirror of the code:
 * `next_substream_id` is a shared `Arc<AtomicUsize>`: `openSubstream` does the `fetch_add`
   **before** the command is sent (so a failed send consumes an identifier, as in the code); other
   holders of the counter are the operation `Op.otherAlloc`.
+* `force_close(peer)` sends `ProtocolCommand::ForceClose` to the secondary connection (result ignored) and then
+  to the primary (result returned) and changes NOTHING in `connections`: both handles stay where they are until
+  each connection reports itself closed. The outcomes of the two `ConnectionHandle::force_close` calls (weak
+  sender not upgradable ⇒ `closed`, `try_send` ⇒ `ok/full/closed`) are inputs, like those of `openSubstream`.
+  The remaining public methods (`dial`, `dial_address`, `add_known_address`, `local_peer_id`, `listen_addresses`,
+  `public_addresses`, `unregister_protocol`) only delegate to the `TransportManagerHandle` and never touch the
+  service's own state: `Op.managerCall`.
 * `debug_assert!(false)` ("connection closed to a non-existent peer") is the explicit flag `bug` of
   the step result: debug builds panic there, release builds return `None` and continue — the model
   continues (every theorem is prefix closed, so both readings are covered).
@@ -130,20 +137,51 @@ def openSubstream (s : State) (p : Peer) (permit : Bool) (send : SendRes) :
       | .full => ({ s with nextSub := s.nextSub + 1 }, .error .channelClogged)
       | .closed => ({ s with nextSub := s.nextSub + 1 }, .error .connectionClosed)
 
+/-- `Error` classes returned by `force_close`. -/
+inductive ForceErr where
+  | peerDoesntExist | connectionClosed | channelClogged
+  deriving Repr, DecidableEq
+
+/-- `ConnectionHandle::force_close` on one handle: the command is enqueued iff the send succeeds. -/
+def forceOne (c : ConnId) : SendRes → Option ForceErr × List ConnId
+  | .ok => (none, [c])
+  | .full => (some .channelClogged, [])
+  | .closed => (some .connectionClosed, [])
+
+/-- `if let Some(ref mut connection) = connection.secondary { let _ = connection.force_close(); }` -/
+def forceSecondary : Option ConnId → SendRes → List ConnId
+  | some h, r => (forceOne h r).2
+  | none, _ => []
+
+/-- `TransportService::force_close`. `sec` / `prim` are the outcomes of `ConnectionHandle::force_close` on the
+secondary and the primary handle. Returns the (UNCHANGED) state, the call's result (`none` = `Ok(())`; the
+secondary's result is discarded, `let _ =`) and the connections that were sent `ProtocolCommand::ForceClose`, in the
+order of the sends (secondary first). -/
+def forceClose (s : State) (p : Peer) (sec prim : SendRes) : State × Option ForceErr × List ConnId :=
+  match cget s.conns p with
+  | none => (s, some .peerDoesntExist, [])
+  | some ctx =>
+    (s, (forceOne ctx.primary prim).1, forceSecondary ctx.secondary sec ++ (forceOne ctx.primary prim).2)
+
 /-- Everything that can happen to the service: an event arrives on `rx`, the protocol calls
-`open_substream`, or another holder of the shared counter allocates `n` identifiers. -/
+`open_substream` or `force_close` or one of the methods that only delegate to the manager handle, or another
+holder of the shared counter allocates `n` identifiers. -/
 inductive Op where
   | inner (e : Inner)
   | open (p : Peer) (permit : Bool) (send : SendRes)
   | otherAlloc (n : Nat)
+  | forceClose (p : Peer) (sec prim : SendRes)
+  | managerCall
   deriving Repr, DecidableEq
 
-/-- What the protocol (and, for an accepted `open`, the connection task) observes of one step. -/
+/-- What the protocol (and, for an accepted `open` / a `force_close`, the connection tasks) observes of one
+step. -/
 inductive Obs where
   | silent
   | ev (e : Ev)
   | openOk (sid : SubId) (c : ConnId)
   | openErr (e : OpenErr)
+  | force (res : Option ForceErr) (cmds : List ConnId)
   deriving Repr, DecidableEq
 
 def step (s : State) : Op → State × Obs
@@ -154,6 +192,10 @@ def step (s : State) : Op → State × Obs
     let r := openSubstream s p permit send
     (r.1, match r.2 with | .ok (sid, c) => .openOk sid c | .error e => .openErr e)
   | .otherAlloc n => ({ s with nextSub := s.nextSub + n }, .silent)
+  | .forceClose p sec prim =>
+    let r := forceClose s p sec prim
+    (r.1, .force r.2.1 r.2.2)
+  | .managerCall => (s, .silent)
 
 /-- Observations of a whole history, in order. -/
 def trace : State → List Op → List Obs
